@@ -173,6 +173,44 @@ pub fn session_case(rng: &mut Rng, out: &mut Out, cfg: &SessionCfg, prop: &str) 
                         ));
                     }
                 }
+                // the batch entry points agree with committing one by one: try_consume_tokens consumes exactly
+                // the validated prefix, consume_tokens of that prefix ends in the same state
+                if !seq.contains(&eos) && extra_eos.map_or(true, |x| !seq.contains(&x)) {
+                    let obs = |c: &mut llguidance::Matcher| -> String {
+                        let st = c.is_stopped();
+                        let mk = if st { None } else { c.compute_mask().ok().map(|v| mask_list(&v)) };
+                        format!("stopped={st} code={} acc={:?} mask={mk:?}", stop_code(c), if st { None } else { c.is_accepting().ok() })
+                    };
+                    let mut one = m.deep_clone();
+                    let fine = seq[..expect].iter().all(|&t| one.consume_token(t).is_ok());
+                    let mut c2 = m.deep_clone();
+                    match c2.try_consume_tokens(&seq) {
+                        Ok(k) if k != expect => viol.push(format!("try_consume_tokens({seq:?}) consumed {k} tokens but {expect} commit one by one, after {history:?}")),
+                        Ok(_) if fine => {
+                            let (a, b) = (obs(&mut c2), obs(&mut one.deep_clone()));
+                            if a != b {
+                                viol.push(format!("after try_consume_tokens({seq:?}): {a}; after committing the same {expect} tokens one by one: {b} (history {history:?})"));
+                            }
+                        }
+                        Err(e) if !is_resource_limit(&c2) => viol.push(format!(
+                            "try_consume_tokens({seq:?}) fails ({}) instead of consuming the {expect} tokens that commit one by one, after {history:?}",
+                            e.to_string().lines().next().unwrap_or("")
+                        )),
+                        _ => {}
+                    }
+                    if fine && expect > 1 {
+                        let mut c3 = m.deep_clone();
+                        if c3.consume_tokens(&seq[..expect]).is_ok() {
+                            let (a, b) = (obs(&mut c3), obs(&mut one));
+                            if a != b {
+                                viol.push(format!("after consume_tokens({:?}): {a}; after committing them one by one: {b} (history {history:?})", &seq[..expect]));
+                            }
+                        } else {
+                            viol.push(format!("consume_tokens({:?}) fails although the tokens commit one by one, after {history:?}", &seq[..expect]));
+                        }
+                    }
+                    out.count("batch_commit_checks", 1);
+                }
                 ops.push(op);
                 results.push(r);
             }
